@@ -70,14 +70,20 @@ TokenGuards(rq, tk) == {<<"G_C12_Issuer", tk.iss = "me">>, <<"G_C12_SoleAudience
                         <<"G_C12_Subject", tk.sub = "alice">>, <<"G_C12_Nonce", tk.nonce = "echo">>,
                         <<"G_C12_JWKS", tk.verifies>>, <<"G_C12_Expiry", tk.expafterauth <= 16 * 3600 + 1>>,
                         <<"G_C12_UserInfo", tk.userinfo = "alice">>}
+\* o.leak: the kinds of artefact OTHER than a released access token that made userinfo name a user in this case
+\* (the authorization code as it travels through the browser, the ID token, the session cookie)
 C12Guards(rq, o) == (IF o.released THEN ReleaseGuards(rq) \cup TokenGuards(rq, o.tk)
                      ELSE {<<"G_C12_LegitimateFlowWorks", ~MustRelease(rq)>>}) \cup {<<"G_C10_NoPanic", ~o.panic>>}
+                    \cup {<<"G_C12_NothingElse", o.leak = <<>> >>}
 
 InC12(rq) == \E cc \in Clients, ca \in Clients \cup {"unknown"}, s \in {"right", "wrong", "absent"},
                 v \in {"right", "wrong", "absent"}, ch \in {"S256", "plain", "none"}, rd \in {"same", "different"},
-                cd \in {"fresh", "expired", "tampered", "cookie", "access"}, via \in {"header", "form"} :
+                cd \in {"fresh", "expired", "tampered", "cookie", "access"}, via \in {"header", "form"},
+                ap \in {"none", "allowed"} :
+                \* audparam: the authorization request named an extra audience the client is allowed to choose (it belongs
+                \* in the ACCESS token; the ID token still names the client alone)
                 rq = [codeclient |-> cc, caller |-> ca, secret |-> s, verifier |-> v, chal |-> ch, redirect |-> rd,
-                      code |-> cd, via |-> via]
+                      code |-> cd, via |-> via, audparam |-> ap]
 
 \* ------------------------------------------------------------------ behaviour spec (design check)
 VARIABLES req, out
@@ -95,7 +101,7 @@ GoodTk(rq) == [iss |-> "me", aud |-> <<rq.caller>>, sub |-> "alice", nonce |-> "
 NoTk == [iss |-> "", aud |-> <<>>, sub |-> "", nonce |-> "", verifies |-> FALSE, expafterauth |-> 0, userinfo |-> ""]
 Redeem  == /\ Which = "C12" /\ out = Pending
            /\ \E rel \in BOOLEAN :
-                /\ out' = [released |-> rel, panic |-> FALSE, tk |-> IF rel THEN GoodTk(req) ELSE NoTk]
+                /\ out' = [released |-> rel, panic |-> FALSE, tk |-> IF rel THEN GoodTk(req) ELSE NoTk, leak |-> <<>>]
                 /\ \A g \in C12Guards(req, out') : g[2]
            /\ UNCHANGED req
 Next == Present \/ Redeem
